@@ -53,3 +53,29 @@ package utils
 //@   fresh r
 //@   ensures err != nil ==> r == nil
 //@   ensures err == nil ==> r != nil
+
+//@ func MatchWildcardRegexp(query, exact) (re)
+//@   props C12
+//@   safe
+//@   modifies nothing
+//@ func findUnescaped(s, find) (r, idx)
+//@   props C12
+//@   safe
+//@   modifies nothing
+//@   ensures idx < len(s) && 0 - 1 <= idx
+//@   loop 1 invariant 0 <= i
+//@ func parseKey(s) (k, v, next, err)
+//@   props C12
+//@   safe
+//@   requires s != ""
+//@   modifies nothing
+//@   ensures err == nil ==> len(next) < len(s)
+//@ func parseElement(pathElement) (name, keys, err)
+//@   props C12
+//@   safe
+//@   modifies nothing
+//@ func nextTokenIndex(path) (r)
+//@   props C12
+//@   safe
+//@   modifies nothing
+//@   ensures 0 <= r && r <= len(path) && (path != "" && at(path, 0) != "/" ==> r > 0)
